@@ -82,6 +82,38 @@ CLAIMED = {
         "thorough) nodes, symmetric families (cycles, K23, K33, cube, C3+C4 traps) and random graphs <=9 nodes.",
    ref="DESIGN.md §3 C08",
    technique="TLA+ theory (relabelling, isomorphism) + TLC-enumerated graphs replayed into the code + TLC judging recorded canonical forms/signatures"),
+ "C01": dict(
+   text="ITS.tla defines MkITS / decomposition / FoldEq. TLC enumerates every reactant/product graph pair on 2 atoms (3 elements incl. H, hcount and charge per "
+        "side, orders 0/1/2 per side) and on 3 atoms (reduced alphabet); each pair is realised as networkx graphs with shuffled ids, insertion order and "
+        "edge orientation and pushed through ITSGraph / construct (store, balance_its variants) and its_decompose; corpus reactions (374 vendored) and "
+        "their renumberings / re-rootings / fragment shuffles / reversals go through rsmi_to_graph, rsmi_to_its, its_decompose, its_to_rsmi. TLC judges "
+        "union of atoms and bonds, (before, after) pairs, stored difference, exact decomposition, atom-map equivalence after hydrogen folding and equal "
+        "unmapped sides.",
+   ref="DESIGN.md §3 C01",
+   technique="TLA+ theory of ITS graphs + TLC-enumerated graph pairs replayed into the code + TLC judging recorded ITS/decompositions/round trips"),
+ "C02": dict(
+   text="On the same TLC-enumerated pairs (2 and 3 atoms, incl. hydrogen atoms), random pairs up to 8 atoms with unchanged H-H bonds, and the corpus with "
+        "renumbered / re-rooted variants, get_rc, get_rc(get_rc), RadiusExpand.extract_k(k=0..3) and the centre of the renumbered reaction are recorded and "
+        "judged by TLC against ITS!RCEdges / RCNodes / ContextNodes / InducedEdges (exact bond and atom sets, copied labels, idempotence, nesting, "
+        "numbering independence).",
+   ref="DESIGN.md §3 C02",
+   technique="TLA+ theory of ITS graphs + TLC-enumerated graph pairs replayed into the code + TLC judging recorded centres/contexts"),
+ "C11": dict(
+   text="All TLC-enumerated labelled graphs (<=3 nodes over 3 labels, 4 nodes over 2 labels; thorough: <=4 over 3 labels and 5 nodes), symmetric families "
+        "and random connected/disconnected graphs <=9 nodes: Automorphism.n_automorphisms/orbits and AutoEst.orbits are judged by TLC against LGraph!Autos "
+        "(per-component product and orbits, estimate must coarsen the full-group orbits); deduplicate_matches_with_anchor on search results (with pattern "
+        "orbits, anchors, host orbits, partial matches) must return an order-preserving sub-list. The clause about symmetry pruning during rule application "
+        "is decided with the rule-application machinery (C05) and reported there.",
+   ref="DESIGN.md §3 C11",
+   technique="TLA+ theory (automorphisms, orbits) + TLC-enumerated graphs replayed into the code + TLC judging recorded results"),
+ "C18": dict(
+   text="The bipartite and species views are DEFINED in TLA+ from the abstract network (C18Cases!BipView / SpView); families (a TLC-enumerated network over 3 "
+        "species and <=2 reactions, renamed / reordered / re-identified copies, a look-alike) are analysed by CRNCanonicalizer and CRNAutomorphism on one "
+        "shared hypergraph object per network under all four (view, stoichiometry) configurations in varying order; TLC judges: view used by the code is the "
+        "view of the network, canonical graph isomorphic to it, identical canonical graphs <=> isomorphic views, automorphism counts and orbits equal to "
+        "LGraph!Autos / Orbits on directed labelled graphs; plus rings of identical reactions and random networks up to 6 species / 5 reactions.",
+   ref="DESIGN.md §3 C18",
+   technique="TLA+ definition of the network views and digraph automorphisms + TLC-enumerated networks replayed into the code + TLC judging recorded results"),
 }
 
 NOT_YET = "check not built yet (work in progress; planned with the same TLA+/TLC technique, see DESIGN.md §3)"
